@@ -679,6 +679,68 @@ def check_C15(ctx):
 
 
 # ------------------------------------------------------------------------------------------------ C20
+def c20_stream_rows(ctx):
+    """R2 + R3 hand-over for stream insertion/extraction: CxxStreamModel (transcription of the ostream path against the C++ standard's layout,
+    istream field grammar against the C-level number grammar) prints every row; they go to harness/cxx_stream.cc as a tab separated file"""
+    import re
+    q = ctx.tier == 'quick'
+    r = assume_model(ctx, 'CxxStreamModel', {'EMIT': 'TRUE', 'Variant': '"ok"', 'L': 3 if q else 4}, timeout=3000)
+    ctx.model_must_hold(r, what='(operator<< path of cxx/os*.cc + printf/doprnti.c = layout of the C++ standard; istream field = number of the C-level grammar)')
+    rows = []; nos = nis = nfs = 0
+    for l in r['out'].splitlines():
+        l = l.strip()
+        m = re.match(r'<<"OS", "(\w+)", "(\w+)", (TRUE|FALSE), (TRUE|FALSE), (TRUE|FALSE), (\d+), "(.)", "(-?[0-9a-f]+)">>$', l)
+        if m: rows.append('OS\t' + '\t'.join(m.groups()) + ('\t1' if not q or nos % 3 == 0 else '\t0')); nos += 1; continue      # quick: mpq_class on every third row
+        m = re.match(r'<<"IS", "(\w+)", (TRUE|FALSE), (".*")>>$', l)
+        if m: rows.append('IS\t' + '\t'.join(m.groups())); nis += 1; continue
+        m = re.match(r'<<"FS", (TRUE|FALSE), (".*")>>$', l)
+        if m: rows.append('FS\t' + '\t'.join(m.groups())); nfs += 1
+    want = re.search(r'<<"CxxStreamModel", (\d+), (\d+), (\d+)>>', r['out'])
+    if not want or tuple(int(x) for x in want.groups()) != (nos, nis, nfs):
+        raise Machinery(f'CxxStreamModel: {nos}+{nis}+{nfs} rows parsed from the TLC output, the model reports {want.groups() if want else "?"}')
+    need(nos, 20000, 'C20 ostream rows'); need(nis, 20000, 'C20 istream rows'); need(nfs, 2000, 'C20 mpf istream rows')
+    for mm in ctx.models:
+        if mm['name'] == 'CxxStreamModel': mm['states'] = max(mm['states'], nos + nis + nfs); mm['transitions'] = mm['states']
+    k = int(os.environ.get('C20_ROW_SAMPLE', '1') or 1)          # development aid (mutant demonstrations): every k-th row only
+    if k > 1: rows = rows[::k]; ctx.notes.append(f'C20_ROW_SAMPLE={k}: only every {k}-th stream row is replayed')
+    p = os.path.join(ctx.scratch, 'stream.rows'); open(p, 'w').write('\n'.join(rows) + '\n')
+    ctx.notes.append(f'stream rows enumerated by TLC: {nos} insertion states x values, {nis} integer extraction inputs x states, {nfs} float extraction inputs')
+    return p
+
+
+def c20_mpf_units(ctx, gen):
+    """mpf_class expression trees (CxxExpr KIND "f") -> generated translation units fu*.cc + fmain.cc in gen; returns their paths"""
+    import re, glob
+    from verif import sh
+    q = ctx.tier == 'quick'
+    r = assume_model(ctx, 'CxxExpr', {'KIND': '"f"'}, name='CxxExpr-f', timeout=3000)
+    ctx.model_must_hold(r)
+    p = os.path.join(ctx.scratch, 'trees-f.out'); open(p, 'w').write(r['out'])
+    n = len(re.findall(r'^<<"TREE", "f", <<.*>>>>$', r['out'], re.M))
+    want = re.search(r'<<"CxxExpr", "f", (\d+)>>', r['out'])
+    if not want or int(want.group(1)) != n: raise Machinery(f'CxxExpr-f: {n} trees parsed from the TLC output, the model reports {want.group(1) if want else "?"}')
+    need(n, 3000, 'C20 mpf_class trees')
+    for mm in ctx.models:
+        if mm['name'] == 'CxxExpr-f': mm['states'] = max(mm['states'], n); mm['transitions'] = mm['states']
+    rc, out = sh(['python3', os.path.join(VERIF, 'lib/cxxgen_f.py'), p, gen, str(ctx.seed), os.environ.get('C20_MPF_MAX') or ('1000' if q else '0')], timeout=600)
+    if rc != 0: raise Machinery('cxxgen_f failed: ' + out[-2000:])
+    ctx.notes.append('mpf generator: ' + out.strip())
+    return sorted(glob.glob(os.path.join(gen, 'fu*.cc'))) + [os.path.join(gen, 'fmain.cc')]
+
+
+def split_validate(ctx, tracep, stem, n=16):
+    """split one ndjson file at execution boundaries into n files and validate them in parallel"""
+    lines = open(tracep).read().splitlines(); chunks = [[] for _ in range(n)]; k = -1
+    for l in lines:
+        if l.startswith('{"e":"reset"'): k += 1
+        chunks[k % n if k >= 0 else 0].append(l)
+    paths = []
+    for i, c in enumerate(chunks):
+        if c: p = os.path.join(ctx.scratch, f'{stem}.{i}.ndjson'); open(p, 'w').write('\n'.join(c) + '\n'); paths.append(p)
+    os.remove(tracep)
+    ctx.validate(paths)
+
+
 def check_C20(ctx):
     import re, glob, concurrent.futures as cf
     from verif import sh
@@ -698,7 +760,8 @@ def check_C20(ctx):
     rc, out = sh(['python3', os.path.join(VERIF, 'lib/cxxgen.py'), outs['z'], outs['q'], gen, str(ctx.seed), '3000' if q else '0', '1200' if q else '0'], timeout=600)
     if rc != 0: raise Machinery('cxxgen failed: ' + out[-2000:])
     ctx.notes.append('generator: ' + out.strip())
-    srcs = sorted(glob.glob(os.path.join(gen, '*.cc'))) + [os.path.join(VERIF, 'harness/cxx_conv.cc')]
+    rowsp = c20_stream_rows(ctx)
+    srcs = sorted(glob.glob(os.path.join(gen, '*.cc'))) + c20_mpf_units(ctx, os.path.join(ctx.scratch, 'cxxf')) + [os.path.join(VERIF, 'harness/cxx_conv.cc'), os.path.join(VERIF, 'harness/cxx_stream.cc'), os.path.join(VERIF, 'harness/cxx_mpf.cc')]
     def comp(s):
         o = os.path.join(gen, os.path.basename(s) + '.o')
         return sh(['g++', '-O0', '-w', f'-I{bx}', '-c', s, '-o', o], timeout=900) + (o,)
@@ -713,24 +776,30 @@ def check_C20(ctx):
     rc, out = sh(['g++', '-no-pie', '-o', exe] + objs + [os.path.join(bx, '.libs/libmpirxx.a'), os.path.join(bx, '.libs/libmpir.a')], timeout=600)
     if rc != 0: raise Machinery('C++ link failed: ' + out[-2000:])
     tracep = os.path.join(ctx.scratch, 'cxx.ndjson')
-    rc, out = sh([exe, tracep, '4'], timeout=900)
+    rc, out = sh([exe, tracep, '4', rowsp], timeout=900)
     if rc != 0:
         with open(tracep, 'a') as f: f.write('\n{"e":"crash","sig":%d,"in":"C++ expression run"}\n' % (rc if rc > 0 else -rc))
-    # split at execution boundaries into 16 files for parallel validation
-    lines = open(tracep).read().splitlines(); chunks = [[] for _ in range(16)]; k = -1
-    for l in lines:
-        if l.startswith('{"e":"reset"'): k += 1
-        chunks[k % 16 if k >= 0 else 0].append(l)
-    paths = []
-    for i, c in enumerate(chunks):
-        if c: p = os.path.join(ctx.scratch, f'cxx.{i}.ndjson'); open(p, 'w').write('\n'.join(c) + '\n'); paths.append(p)
-    os.remove(tracep)
-    ctx.validate(paths)
+    split_validate(ctx, tracep, 'cxx')       # split at execution boundaries into 16 files for parallel validation
     return ctx.finish('exploration',
         rule='programs = well-typed mpz_class / mpq_class expression trees of depth <= 2 enumerated by TLC from the typed grammar (CxxExpr.tla: every op1(op2(x,y),z) and mirror image over 11 leaves '
              'incl. LONG_MIN/LONG_MAX/ULONG_MAX/doubles on either side, op1(op2,op3) over a smaller alphabet, unary wrappers, comparisons/cmp/sgn at the root; quick: a seeded 3000 + 1200), '
              'each compiled against the tree\'s mpirxx.h and evaluated for 4 operand-value classes with assignment to a fresh temporary, to a variable occurring in the tree (every 4th) and as a '
              'compound assignment (every 5th); the printed value must equal CxxSem!EvalZ / EvalQ (= every sub-expression into its own temporary with the C function). Conversions: set_str and '
-             'string constructors (exceptions), get_str in bases 2..62, stream insertion/extraction round trips, fits/get. mpf_class arithmetic is not enumerated (the precision of temporaries '
-             'is an implementation choice). distinct = distinct (tree, target, value class); non-trivial = a tree with at least one operator',
-        explanation='expression trees generated from the grammar, validated against the C-level semantics')
+             'string constructors (exceptions), get_str in bases 2..62, stream insertion/extraction round trips, fits/get. '
+             'mpf_class: 7 050 trees (CxxExpr KIND f: + - * / neg abs sqrt floor ceil trunc, comparisons/cmp/sgn at the root, operands of 64/128/256 bits precision and long/unsigned long/double '
+             'incl. LONG_MIN, ULONG_MAX; quick: all depth-1 + a seeded 1000) x 4 value classes (small exact dyadics, full mantissas, distant exponents, zero) x targets (constructor, assignment to a '
+             'fresh 64- or 512-bit variable, to an operand, compound assignment): the harness evaluates every tree a second time with explicit temporaries and the corresponding C functions, the '
+             'temporaries having the precision the manual states (destination; for constructors and comparison operands the highest operand precision); CxxSemF.tla requires every node of that '
+             'evaluation to satisfy SemF!PostF of its C function (accuracy bound + exactness clause) and the C++ result to equal its root limb for limb with the stated precision. '
+             'Streams (CxxStream.tla, CxxStreamModel.tla): R2 the transcription of the operator<< path (osfuns.cc, osdoprnti.cc, doprnti.c) produces a text the C++ standard\'s num_put layout '
+             '(OstreamLayout: conversion from basefield/showbase/showpos/uppercase, stage-3 padding) admits on 5 basefield x 5 adjustfield states x showbase x showpos x uppercase x width '
+             '{0,1,5,12} x fill {space,*,0} x 12 values (one-limb, LONG_MIN/MAX, multi-limb), and that layout equals C99 printf where printf can express the request; R3/R1 every row is printed '
+             'through mpz_class, twice in a row (width reset), through the standard library on the equal long (text = specification, and MPIR = standard library byte for byte where the '
+             'standard gives the combination a meaning, except hex zero with showbase which the tree\'s own tests state, and octal+showbase+internal padding where both paddings are admitted), '
+             'and through mpq_class (base indicator on both parts, denominator 1 omitted); extraction of mpz_class/mpq_class/long from every string of length <= 3 (thorough 4) over '
+             '{0 1 7 9 a F x X - + space / g tab} and 38 longer inputs x basefield {dec,oct,hex,none} x skipws: status, value (= the C-level grammar SemIO!ParseNum on the consumed field, checked '
+             'in the model), characters consumed, next character, all equal to the standard library reading a long where the manual states no difference; mpf_class extraction (field grammar '
+             'FParse, value within SemF!SetStrOK, double side by side); mpf_class insertion vs the standard library on the equal double (23 values k/2^j x floatfield x 7 precisions x '
+             'showpoint/showpos/uppercase x width/adjustfield) whenever the requested digits represent the value without rounding. '
+             'distinct = distinct (tree, target, value class) or stream row; non-trivial = a tree with at least one operator / a row with at least one flag, width or multi-limb value',
+        explanation='expression trees and stream states/inputs generated by TLC from grammars, validated against the C-level semantics and the C++ standard\'s formatting rules')
